@@ -215,6 +215,9 @@ def run_battery(ctx, mutants: list[dict], twins: list[dict] | None = None) -> di
             broken.append(f"twin {t['name']} (behaviour-preserving) raised {new[:3]}: {r['msgs'][:2]}")
         else:
             silent.append(t["name"])
+    # the mutation analysis the canonicaliser leans on for reorderings answers as expected on its synthetic package
+    from .effects import selftest as effects_selftest
+    broken += effects_selftest()
     return {
         "selftest_mutants_fired": len(fired), "selftest_mutants_total": len(mutants),
         "selftest_twins_silent": len(silent), "selftest_twins_total": len(twins),
